@@ -79,8 +79,14 @@ def apply_contract(ip, c, info, args, kwargs, st, node):
     # exceptional outcomes
     st.old = pre
 
+    wanted = None
+    if ip.active_contract is not None and c.key in ip.active_contract.use:
+        wanted = set(ip.active_contract.use[c.key])
+
     def finish(s, result):
         for cl in c.ensures:
+            if wanted is not None and cl.label not in wanted:
+                continue
             s.assume(ip.spec_bool(cl.src, s, extra={'result': result}))
         s.old = saved_old
         del s.stack[depth - 1:]
